@@ -142,8 +142,6 @@ Fixpoint spec_trace (s : smap) (h : list op) : list bytes :=
 Definition class_tok (d : option dev24) : bytes :=
   match d with
   | None => dash
-  | Some RootUnwrap => B "root_remove_unwrap"
-  | Some SubtreeDeleted => B "subtree_deleted"
   | Some ManagerDropped => B "manager_dropped"
   end.
 
